@@ -4,6 +4,7 @@ From Coq Require Import String ZArith List Bool.
 From FcpV Require Import Base.Bits Schema.Types Wire.Wire Wire.WireProofs Py.PySerde Py.PySerdeProofs.
 From FcpV Require Import Corr.Serde gen.StdVectors.
 From FcpV Require Import Py.BufferLib gen.PyBuffer Py.BufferProofs gen.PyLeaf Py.LeafProofs.
+From FcpV Require Import Py.DispatchLib Py.DispatchDefs Py.DispatchProofs Py.DispatchExample.
 Import ListNotations.
 Open Scope Z_scope.
 
@@ -188,3 +189,28 @@ Example c02_leaf_nonvacuous :
   py__decode_builtin_signed (mk [129] 0) (num 8) = POk (mk [129] 8, -127) /\
   py__decode_builtin_float (mk [0; 0; 192; 63] 0) (num 32) = POk (mk [0; 0; 192; 63] 32, 1069547520).
 Proof. repeat split; vm_compute; reflexivity. Qed.
+
+(* ---- serde.py END TO END (every function of the file translated from the source on every run): the translated encode(),
+   run on the Python image of a value, returns the canonical format Wire.wire packed into bytes - for every schema with unique
+   struct and field names, every struct and every value the specification encodes and Python can represent *)
+Theorem source_encode_is_wire :
+  forall sc, NoDup (map sname (structs sc)) ->
+  forall name t v bs fuel,
+    resolve sc name = Some t -> uniq t -> repr t v = true -> (depth t <= S fuel)%nat -> wire t v = Some bs ->
+    PyDispatch.py_encode fuel sc name (embed t v) = POk (bytes_of_bits bs).
+Proof. exact translated_encode_is_wire. Qed.
+Print Assumptions source_encode_is_wire.
+
+(* at any type and any cursor: _encode appends exactly the specification's bits to what the buffer holds *)
+Theorem source_encode_appends_wire :
+  forall sc t st v bs fuel n buf,
+    den sc t st -> wire t v = Some bs -> repr t v = true -> uniq t -> (depth t <= fuel)%nat -> W n buf ->
+    exists buf', PyDispatch.py__encode fuel (mk buf (Z.of_nat n)) sc st (embed t v) = POk (mk buf' (Z.of_nat (n + length bs)), tt) /\
+                 W (n + length bs) buf' /\ enc_abs buf' (n + length bs) = enc_abs buf n ++ bs.
+Proof. exact encode_refines. Qed.
+Print Assumptions source_encode_appends_wire.
+
+Example c02_source_nonvacuous :
+  exists bytes, PyDispatch.py_encode 8 ex_sc "M" (embed ex_t ex_v) = POk bytes /\ PyDispatch.py_decode 8 ex_sc "M" bytes = POk (embed ex_t ex_v)
+                /\ length bytes = 18%nat.
+Proof. exact translated_code_runs. Qed.
